@@ -7,6 +7,20 @@ against `Model/Ring.lean`.  Every field of a transition encodes its id, so a slo
 disagree shows up as MIXED.  Oracle: independent last-N reference in Python + "a batch handed out
 is never altered later" + "no duplicates in one uniform batch".
 
+Rejected additions (single-agent): `badadd w` hands `add` a malformed batch (every leaf has one column too
+many, ids 9001…) once the storage exists; the real code raises, the model answers `reject`; afterwards length,
+contents, counter and all later ops must be as if the call had not happened.  Every leaf is malformed on purpose:
+the TensorDict slice assignment copies key by key, so a batch whose first fields are well-formed is partly
+written before it is rejected (also `add` of more rows than the capacity, or a batch with a missing key, which is
+accepted) - inputs outside the property's quantifier, not probed.
+
+Multi-agent layouts: every case draws `cfg` = field order (1-3 flag fields among done / termination /
+terminated / truncation / truncated, placed last, first, between reward and next_state, or anywhere), a value
+style (integer codes, +0.25 fractions, negative, x1000 - none but the first survives an integer cast, the last
+two leave 0..255) and float or int64 (> 2^31) actions.  A stored / sampled transition counts as intact only if
+EVERY leaf of every field of every agent equals exactly what was stored for the id read off agent_0's state
+(sampled leaves: the float32 value, which is what `sample` hands out by design; dtypes are not compared).
+
 Source translation (`pre_gate`, before the Lean gate): `py2lean_ring.py` translates the source text of
 `ReplayBuffer.__init__/__len__/size/add/sample/clear` (replay_buffer.py) and of
 `MultiAgentReplayBuffer.__init__/__len__/_add/save_to_memory*` (multi_agent_replay_buffer.py) of the tree
@@ -73,6 +87,23 @@ def make_transition(kind: str, ids: list[int]):
     return td
 
 
+def make_malformed(kind: str, w: int):
+    """a batch the real `add` must reject once the storage exists: EVERY leaf has one column too many (1-d leaves
+    become two columns), so whichever field the slice assignment copies first already fails and nothing is written.
+    Its rows carry ids 9001… which must never show up in the buffer."""
+    from tensordict import TensorDict
+    good = make_transition(kind, list(range(9001, 9001 + w)))
+    leaves = {}
+    for key in good.keys(include_nested=True, leaves_only=True):
+        x = good[key]
+        x = x[:, None].repeat(1, 2) if x.ndim == 1 else torch.cat([x, x[..., :1]], dim=-1)
+        leaves[key if isinstance(key, tuple) else (key,)] = x
+    td = TensorDict({}, batch_size=[w])
+    for key, x in leaves.items():
+        td[key] = x
+    return td
+
+
 def decode_rows(td, n: int) -> list[str]:
     """per row: the id if every field (and every member of dict/tuple observations) agrees"""
     out = []
@@ -106,7 +137,7 @@ def decode_rows(td, n: int) -> list[str]:
     return out
 
 
-def gen_ops(rng: random.Random, cap: int, length: int):
+def gen_ops(rng: random.Random, cap: int, length: int, bad: bool = False):
     ops, size = [], 0
     nid = 1
     cursor = 0
@@ -127,15 +158,27 @@ def gen_ops(rng: random.Random, cap: int, length: int):
             nid += w
             cursor = (cursor + w) % cap
             size = min(cap, size + w)
+        elif r < 0.67 and bad:
+            ops.append(["badadd", rng.randint(1, cap)])       # malformed batch, rejected by the real add
         elif r < 0.80:
             ops.append(["sample", rng.randint(1, size)])
-        elif r < 0.88:
+        elif r < 0.87:
             ops.append(["len"])
-        elif r < 0.97:
+        elif r < 0.95:
             ops.append(["dump"])
         else:
             ops.append(["clear"])
             size, cursor = 0, 0
+            if rng.random() < 0.7 and cap >= 3:
+                # life after clear(): a few narrow additions that do not fill the storage, then look at it
+                for _ in range(rng.randint(2, 3)):
+                    w = rng.randint(1, max(1, cap // 3))
+                    ops.append(["add"] + list(range(nid, nid + w)))
+                    nid += w
+                    cursor = (cursor + w) % cap
+                    size = min(cap, size + w)
+                ops.append(["dump"])
+                ops.append(["sample", rng.randint(1, size)])
     ops.append(["dump"])
     ops.append(["len"])
     return ops
@@ -165,6 +208,26 @@ def run_impl_single(cap: int, kind: str, ops, case_seed: int):
             elif before + len(ids) == cap:
                 tags.append("wrap-exact")
             tags.append("add-batch" if len(ids) > 1 else "add-single")
+        elif op[0] == "badadd":
+            if buf.storage is None:
+                continue                       # before the first add the batch would define the layout: not malformed
+            before = (len(buf), buf.counter)
+            try:
+                buf.add(make_malformed(kind, op[1]))
+                obs_lines.append("accepted-malformed")
+            except Exception:
+                obs_lines.append("reject")
+            model_lines.append("ring add " + " ".join(map(str, range(9001, 9002 + cap))))   # too wide: the model rejects
+            # oracle: a rejected add did not happen - length, counter and contents are those of the successful adds
+            n = len(buf)
+            rows = decode_rows(buf.storage[:n], n) if n else []
+            if n != before[0] or n != min(cap, len(since_clear)) or sorted(rows) != sorted(map(str, since_clear[-cap:])):
+                problems.append(f"after a rejected add (malformed batch of {op[1]} rows): len={n} contents={sorted(rows)}; "
+                                f"expected len={min(cap, len(since_clear))} contents={sorted(map(str, since_clear[-cap:]))}")
+            if buf.counter != before[1] or buf.counter != len(hist):
+                problems.append(f"counter after a rejected add (malformed batch of {op[1]} rows) is {buf.counter}; "
+                                f"{len(hist)} transitions were added")
+            tags.append("rejected-add")
         elif op[0] == "sample":
             k = op[1]
             if len(buf) == 0:
@@ -217,35 +280,58 @@ def run_impl_single(cap: int, kind: str, ops, case_seed: int):
 # ----------------------------------------------------------------------------- multi agent
 AGENTS = ["agent_0", "agent_1", "other_0"]
 FIELDS = ["state", "action", "reward", "next_state", "done"]
+FLAG_FIELDS = ["done", "termination", "terminated", "truncation", "truncated"]
+# value styles: (scale, extra) - a field value is scale * code + extra (+ 0.5 for next_state), code = 4*id + agent index.
+# None of them but "plain" survives an integer cast; "neg" / "big" leave the uint8 range.  All are exact in float32.
+MA_STYLES = {"plain": (1.0, 0.0), "frac": (1.0, 0.25), "neg": (-1.0, -0.25), "big": (1000.0, 0.25)}
+INT_ACTION_BASE = 2 ** 33          # int64 action ids beyond 2^31 (stored exactly; sampled as float32 by design)
+DEFAULT_MA_CFG = {"fields": FIELDS, "style": "plain", "int_action": False}
 
 
-def ma_args(ids: list[int], vect: bool, kind: str, order_rng: random.Random | None = None):
-    """every value of agent number ai encodes 4*id + ai (its done flag: (id + ai) % 2), so data that
-    ends up under another agent's key is visible; each field's dict may list the agents in its own order"""
-    def field(fi: int):
+def ma_cfg(cfg) -> dict:
+    out = dict(DEFAULT_MA_CFG)
+    out.update(cfg or {})
+    return out
+
+
+def ma_field_value(cfg: dict, kind: str, field: str, ai: int, ids: list[int]):
+    """batched value (leading dim = len(ids)) of `field` for agent number ai; every element encodes the
+    transition id (code 4*id + ai), so data under another agent's / transition's key is visible"""
+    scale, extra = MA_STYLES[cfg["style"]]
+    code = np.array(ids, dtype=np.int64) * 4 + ai
+    if field in FLAG_FIELDS:
+        return ((np.array(ids, dtype=np.int64) + ai + FLAG_FIELDS.index(field)) % 2).astype(np.float32)
+    a = (code.astype(np.float64) * scale + extra).astype(np.float32)
+    n = len(ids)
+    if field in ("state", "next_state"):
+        a = a + np.float32(0.5 if field == "next_state" else 0.0)
+        if kind == "image":
+            return np.broadcast_to(a[:, None, None, None], (n, 1, 2, 2)).copy()
+        if kind == "dict":
+            return {"p": np.repeat(a[:, None], 2, axis=1), "q": np.repeat(a[:, None], 3, axis=1)}
+        if kind == "tuple":
+            return (np.repeat(a[:, None], 2, axis=1), np.repeat(a[:, None], 3, axis=1), np.repeat(a[:, None], 1, axis=1))
+        return np.repeat(a[:, None], 2 + ai, axis=1)
+    if field == "action":
+        if cfg["int_action"]:
+            return np.repeat((code + INT_ACTION_BASE)[:, None], 2, axis=1)          # int64
+        return np.repeat(a[:, None], 2, axis=1)
+    if field == "reward":
+        return a.copy()
+    raise ValueError(field)
+
+
+def ma_args(ids: list[int], vect: bool, kind: str, order_rng: random.Random | None = None, cfg=None):
+    """one dict per field (in the order of cfg['fields']); each field's dict may list the agents in its own order"""
+    cfg = ma_cfg(cfg)
+
+    def field(name: str):
         d = {}
         order = list(enumerate(AGENTS))
         if order_rng is not None:
             order_rng.shuffle(order)
         for ai, ag in order:
-            a = np.array(ids, dtype=np.float32) * 4 + ai
-            if FIELDS[fi] == "done":
-                v = np.array([(i + ai) % 2 for i in ids], dtype=np.float32)
-            elif FIELDS[fi] in ("state", "next_state"):
-                off = 0.5 if FIELDS[fi] == "next_state" else 0.0
-                if kind == "image":
-                    v = np.broadcast_to((a + off)[:, None, None, None], (len(ids), 1, 2, 2)).copy()
-                elif kind == "dict":
-                    v = {"p": np.repeat((a + off)[:, None], 2, axis=1), "q": np.repeat((a + off)[:, None], 3, axis=1)}
-                elif kind == "tuple":
-                    v = (np.repeat((a + off)[:, None], 2, axis=1), np.repeat((a + off)[:, None], 3, axis=1),
-                         np.repeat((a + off)[:, None], 1, axis=1))
-                else:
-                    v = np.repeat((a + off)[:, None], 2 + ai, axis=1)
-            elif FIELDS[fi] == "action":
-                v = np.repeat(a[:, None], 2, axis=1)
-            else:
-                v = a.copy()
+            v = ma_field_value(cfg, kind, name, ai, ids)
             if not vect:
                 if isinstance(v, dict):
                     v = {k: x[0] for k, x in v.items()}
@@ -255,74 +341,79 @@ def ma_args(ids: list[int], vect: bool, kind: str, order_rng: random.Random | No
                     v = v[0]
             d[ag] = v
         return d
-    return [field(i) for i in range(len(FIELDS))]
+    return [field(f) for f in cfg["fields"]]
 
 
-def _ma_id(values, dones) -> str:
-    """values: {(agent index, decoded number)}, dones: {(agent index, flag)} -> the common id or MIXED"""
-    ids = set()
-    for ai, v in values:
-        if v != int(v) or int(v) % 4 != ai:
-            return "MIXED"                      # not an integer code, or another agent's data
-        ids.add(int(v) // 4)
-    if len(ids) != 1:
+def _leaves(x):
+    return [x[k] for k in sorted(x.keys())] if isinstance(x, dict) else (list(x) if isinstance(x, tuple) else [x])
+
+
+def _ma_guess_id(cfg: dict, x0: float):
+    """transition id from the first element of agent_0's `state` (None if it is not one of our codes)"""
+    scale, extra = MA_STYLES[cfg["style"]]
+    c = (x0 - extra) / scale
+    if c != c or abs(c) > 1e9 or c != round(c) or int(round(c)) % 4 != 0 or c < 0:
+        return None
+    return int(round(c)) // 4
+
+
+def _ma_row_id(cfg: dict, kind: str, get, sampled: bool) -> str:
+    """`get(field, agent)` -> leaves (flat float64 arrays) of one stored / sampled transition.  The id is read off
+    agent_0's state; the transition is intact iff EVERY leaf of every field of every agent equals exactly what was
+    stored for that id (a sampled leaf: the float32 value of it, which is what sample() hands out by design)."""
+    x = get("state", AGENTS[0])
+    if not x or x[0].size == 0:
         return "MIXED"
-    tid = ids.pop()
-    if any(flag != (tid + ai) % 2 for ai, flag in dones):
+    tid = _ma_guess_id(cfg, float(x[0][0]))
+    if tid is None:
         return "MIXED"
+    for f in cfg["fields"]:
+        for ai, ag in enumerate(AGENTS):
+            want = _leaves(ma_field_value(cfg, kind, f, ai, [tid]))
+            got = get(f, ag)
+            if len(got) != len(want):
+                return "MIXED"
+            for g, w in zip(got, want):
+                w = np.asarray(w[0]).reshape(-1)
+                w = w.astype(np.float32).astype(np.float64) if sampled else w.astype(np.float64)
+                if g.shape != w.shape or not np.array_equal(g, w):
+                    return "MIXED"
     return str(tid)
 
 
-def ma_decode_experience(e) -> str:
-    values, dones = set(), set()
-    for f in FIELDS:
-        for ai, ag in enumerate(AGENTS):
-            x = getattr(e, f)[ag]
-            xs = list(x.values()) if isinstance(x, dict) else (list(x) if isinstance(x, tuple) else [x])
-            for y in xs:
-                y = np.asarray(y, dtype=np.float64).reshape(-1)
-                if f == "done":
-                    dones.add((ai, float(y[0])))
-                else:
-                    off = 0.5 if f == "next_state" else 0.0
-                    for v in np.unique(y):
-                        values.add((ai, float(v) - off))
-    return _ma_id(values, dones)
+def ma_decode_experience(e, cfg=None, kind: str = "vector") -> str:
+    cfg = ma_cfg(cfg)
+
+    def get(f, ag):
+        return [np.asarray(y).astype(np.float64).reshape(-1) for y in _leaves(getattr(e, f)[ag])]
+    return _ma_row_id(cfg, kind, get, sampled=False)
 
 
-def ma_decode_batch(batch, k: int) -> list[str]:
+def ma_decode_batch(batch, k: int, cfg=None, kind: str = "vector") -> list[str]:
     """sampled batch: tuple(field -> {agent: tensor[k,...]})"""
+    cfg = ma_cfg(cfg)
     rows = []
     for j in range(k):
-        values, dones = set(), set()
-        for fi, f in enumerate(FIELDS):
-            for ai, ag in enumerate(AGENTS):
-                x = batch[fi][ag]
-                xs = list(x.values()) if isinstance(x, dict) else (list(x) if isinstance(x, tuple) else [x])
-                for y in xs:
-                    y = y[j].reshape(-1).to(torch.float64)
-                    if f == "done":
-                        dones.add((ai, float(y[0])))
-                    else:
-                        off = 0.5 if f == "next_state" else 0.0
-                        for v in torch.unique(y).tolist():
-                            values.add((ai, v - off))
-        rows.append(_ma_id(values, dones))
+        def get(f, ag, j=j):
+            x = batch[cfg["fields"].index(f)][ag]
+            return [y[j].reshape(-1).to(torch.float64).numpy() for y in _leaves(x)]
+        rows.append(_ma_row_id(cfg, kind, get, sampled=True))
     return rows
 
 
-def run_impl_ma(cap: int, kind: str, ops, case_seed: int):
+def run_impl_ma(cap: int, kind: str, ops, case_seed: int, cfg=None):
     from agilerl.components.multi_agent_replay_buffer import MultiAgentReplayBuffer
+    cfg = ma_cfg(cfg)
     random.seed(case_seed)
     order_rng = random.Random(case_seed ^ 0x5EED) if case_seed % 3 else None   # 2/3 of the cases shuffle key order
-    buf = MultiAgentReplayBuffer(memory_size=cap, field_names=FIELDS, agent_ids=AGENTS)
+    buf = MultiAgentReplayBuffer(memory_size=cap, field_names=list(cfg["fields"]), agent_ids=AGENTS)
     obs_lines, model_lines, problems, tags = ["ok"], [f"ring dnew {cap}"], [], []
     hist: list[int] = []
     for op in ops:
         if op[0] == "add":
             ids = op[1:]
             vect = len(ids) > 1 or (ids[0] % 3 == 0)
-            buf.save_to_memory(*ma_args(ids, vect, kind, order_rng), is_vectorised=vect)
+            buf.save_to_memory(*ma_args(ids, vect, kind, order_rng, cfg), is_vectorised=vect)
             hist += ids
             model_lines.append("ring dadd " + " ".join(map(str, ids)))
             obs_lines.append("ok")
@@ -333,7 +424,7 @@ def run_impl_ma(cap: int, kind: str, ops, case_seed: int):
             k = min(op[1], len(buf))
             if k == 0:
                 continue
-            rows = ma_decode_batch(buf.sample(k), k)
+            rows = ma_decode_batch(buf.sample(k), k, cfg, kind)
             expect = set(map(str, hist[-cap:]))
             if len(rows) != k or len(set(rows)) != k or not set(rows) <= expect:
                 problems.append(f"MA sample({k}) -> {rows}; stored {sorted(expect)}")
@@ -345,7 +436,7 @@ def run_impl_ma(cap: int, kind: str, ops, case_seed: int):
                 problems.append(f"MA len={len(buf)} expected {min(cap, len(hist))}")
         elif op[0] == "dump":
             model_lines.append("ring ddump")
-            rows = [ma_decode_experience(e) for e in buf.memory]
+            rows = [ma_decode_experience(e, cfg, kind) for e in buf.memory]
             obs_lines.append(" ".join(rows))
             if rows != list(map(str, hist[-cap:])):
                 problems.append(f"MA contents {rows} != last-N {hist[-cap:]}")
@@ -364,11 +455,13 @@ def pre_gate(chk: Check) -> None:
                             "ReplayBuffer circular storage / sample / clear, MultiAgentReplayBuffer bounded deque")
 
 
-def one_case(chk: Check, which: str, cap: int, kind: str, ops, case_seed: int):
+def one_case(chk: Check, which: str, cap: int, kind: str, ops, case_seed: int, cfg=None):
     """returns (diff index or None, problems, tags, impl_lines, model_out)"""
-    runner = run_impl_single if which == "single" else run_impl_ma
     try:
-        impl, model_ops, problems, tags = runner(cap, kind, ops, case_seed)
+        if which == "single":
+            impl, model_ops, problems, tags = run_impl_single(cap, kind, ops, case_seed)
+        else:
+            impl, model_ops, problems, tags = run_impl_ma(cap, kind, ops, case_seed, cfg)
     except Exception as e:  # the implementation raised on a legal op sequence
         return None, [f"implementation raised {type(e).__name__}: {e}"], [], [], []
     model_out = chk.driver.run(["reset"] + model_ops)[1:]
@@ -380,43 +473,58 @@ def run(chk: Check) -> None:
     rng = chk.rng
     n_cases = 300 if chk.tier == "quick" else 2500
     chk.rule = ("random op sequences (add with widths biased to end exactly at / run across the end of the "
-                "storage, sample, len, dump, clear) on ReplayBuffer and MultiAgentReplayBuffer, capacities 1..17, "
-                "five observation kinds; distinct = distinct (buffer, capacity, kind, op list); non-trivial = at "
-                "least one wrap-around or eviction happened")
+                "storage, sample, len, dump, clear; single-agent also malformed batches that add() rejects, which must "
+                "leave no trace) on ReplayBuffer and MultiAgentReplayBuffer, capacities 1..17, five observation kinds; "
+                "multi-agent: random field layouts (1-3 flag fields done/termination/terminated/truncation/truncated "
+                "first, in the middle or last), four value styles (integer codes, +0.25 fractions, negative, > 255) and "
+                "float or int64 (> 2^31) actions, sampled and stored fields compared exactly with what was stored; "
+                "distinct = distinct (buffer, capacity, kind, layout, op list); non-trivial = at least one wrap-around "
+                "or eviction happened")
     chk.assumptions = ["tensordict slice assignment and indexing behave as documented",
-                       "ids are encoded in every field, so equality of decoded ids stands for 'fields belong together'"]
+                       "ids are encoded in every field, so equality of decoded ids stands for 'fields belong together'",
+                       "a malformed batch is malformed in every leaf (the key-by-key TensorDict slice assignment is not "
+                       "atomic for partly well-formed batches; those are outside the property)"]
     # corpus first
     corpus = sorted((ROOT / "corpus" / "C09").glob("*.json"))
     cases = []
     for f in corpus:
         c = json.loads(f.read_text())
-        cases.append((c["which"], c["cap"], c["kind"], c["ops"], c.get("seed", 0), f.name))
+        cases.append((c["which"], c["cap"], c["kind"], c["ops"], c.get("seed", 0), c.get("cfg"), f.name))
     for i in range(n_cases):
         which = "single" if rng.random() < 0.6 else "ma"
         cap = rng.choice([1, 2, 3, 4, 5, 7, 8, 11, 16, 17]) if rng.random() < 0.8 else rng.randint(1, 17)
         kind = rng.choice(OBS_KINDS if which == "single" else ["vector", "image", "dict", "tuple"])
-        ops = gen_ops(rng, cap, rng.randint(4, 14 if chk.tier == "quick" else 40))
-        cases.append((which, cap, kind, ops, rng.randrange(1 << 30), None))
+        ops = gen_ops(rng, cap, rng.randint(4, 14 if chk.tier == "quick" else 40), bad=which == "single")
+        cfg = gen_ma_cfg(rng) if which == "ma" else None
+        cases.append((which, cap, kind, ops, rng.randrange(1 << 30), cfg, None))
     ndiff = 0
-    for which, cap, kind, ops, cs, origin in cases:
-        diff, problems, tags, impl, model_out = one_case(chk, which, cap, kind, ops, cs)
+    for which, cap, kind, ops, cs, cfg, origin in cases:
+        diff, problems, tags, impl, model_out = one_case(chk, which, cap, kind, ops, cs, cfg)
         wrapped = any(t in ("wrap-across", "wrap-exact", "ma-evict") for t in tags)
-        chk.case([which, cap, kind, ops], nontrivial=wrapped,
-                 sample={"buffer": which, "cap": cap, "obs": kind, "ops": ops[:8]}, tags=tags + [f"buf-{which}", f"obs-{kind}"])
+        if which == "ma":
+            c = ma_cfg(cfg)
+            flags = [i for i, f in enumerate(c["fields"]) if f in FLAG_FIELDS]
+            tags = tags + [f"ma-style-{c['style']}", "ma-flag-last" if flags and min(flags) == len(c["fields"]) - len(flags)
+                           else "ma-flag-not-last", f"ma-int-action-{c['int_action']}"]
+        chk.case([which, cap, kind, cfg, ops], nontrivial=wrapped,
+                 sample={"buffer": which, "cap": cap, "obs": kind, "cfg": cfg, "ops": ops[:8]},
+                 tags=tags + [f"buf-{which}", f"obs-{kind}"])
         if diff is None and not problems:
             continue
         ndiff += diff is not None
 
-        def still_fails(sub):
-            d, p, *_ = one_case(chk, which, cap, kind, renumber(sub), cs)
-            return bool(p) if problems else d is not None
+        cat0 = problem_kind(problems[0]) if problems else None
+
+        def still_fails(sub):          # shrink towards the same kind of failure, not just any failure
+            d, p, *_ = one_case(chk, which, cap, kind, renumber(sub), cs, cfg)
+            return any(problem_kind(q) == cat0 for q in p) if problems else d is not None
         small = renumber(ddmin(ops, still_fails))
-        d2, p2, _, impl2, model2 = one_case(chk, which, cap, kind, small, cs)
-        replay = {"which": which, "cap": cap, "kind": kind, "ops": small, "seed": cs,
+        d2, p2, _, impl2, model2 = one_case(chk, which, cap, kind, small, cs, cfg)
+        replay = {"which": which, "cap": cap, "kind": kind, "ops": small, "seed": cs, "cfg": cfg,
                   "impl": impl2, "model": model2, "oracle_problems": p2 or problems,
                   "correspondence": "harness/c09.py vs Model/Ring.lean", "theorems": chk.gate["theorems"]}
         if problems:
-            chk.violation((p2 or problems)[0], replay)
+            chk.violation(next((q for q in p2 if problem_kind(q) == cat0), (p2 or problems)[0]), replay)
         else:
             chk.violation(f"implementation and Ring model disagree at line {diff}: impl={impl[diff]!r} "
                           f"model={model_out[diff]!r}; property oracle holds on this case and its shrinks",
@@ -425,6 +533,29 @@ def run(chk: Check) -> None:
     sample_stress(chk)
     if chk.tier == "thorough":
         selftest(chk)
+
+
+def problem_kind(msg: str) -> str:
+    """first word of an oracle message (contents / sample / duplicate / len / a / MA / implementation / after / counter)"""
+    import re
+    return re.split(r"[ =\[(]", msg, maxsplit=1)[0]
+
+
+def gen_ma_cfg(rng: random.Random) -> dict:
+    """field layout and value style of one multi-agent case"""
+    flags = rng.sample(FLAG_FIELDS, rng.choice([1, 1, 1, 2, 2, 3]))
+    base = ["state", "action", "reward", "next_state"]
+    r = rng.random()
+    if r < 0.25:
+        fields = base + flags                                  # the layout every caller in the repo uses
+    elif r < 0.45:
+        fields = flags + base                                  # flags first
+    elif r < 0.65:
+        fields = base[:3] + flags + base[3:]                   # s, a, r, d, s'
+    else:
+        fields = base + flags
+        rng.shuffle(fields)
+    return {"fields": fields, "style": rng.choice(sorted(MA_STYLES)), "int_action": rng.random() < 0.3}
 
 
 def stress_one(cls_name: str, cap: int, fill: int, batch: int, seed: int, w: int, n_draws: int):
@@ -528,7 +659,7 @@ def replay(chk: Check, path: str) -> int:
         if problem:
             print(f"VIOLATION property=C09 replay={path}")
         return 1 if problem else 0
-    diff, problems, _, impl, model = one_case(chk, c["which"], c["cap"], c["kind"], c["ops"], c.get("seed", 0))
+    diff, problems, _, impl, model = one_case(chk, c["which"], c["cap"], c["kind"], c["ops"], c.get("seed", 0), c.get("cfg"))
     print(json.dumps({"diff_at": diff, "oracle_problems": problems, "impl": impl, "model": model}, indent=1))
     if problems:
         print(f"VIOLATION property=C09 replay={path}")
